@@ -56,6 +56,10 @@ Definition read_log (x : sig) (l : list entry) : val :=
   match x with
   | SRA => rg_a (regs_of_log l) | SRA2 => rg_a2 (regs_of_log l) | SRB => rg_b (regs_of_log l)
   | SC => c_of_log l
+  | SPA => pinv PA (after_reeval l)
+  | SZ => Some 0%N
+  | SCLO => option_map (fun v => N.land v 15) (c_of_log l)
+  | SCHI => option_map (fun v => N.shiftr v 4) (c_of_log l)
   end.
 
 (* register values after a flank of clock pin k, given the log before it *)
@@ -426,8 +430,9 @@ Proof.
     intros _. eapply st_part_plain; [exact Ist | exact L | eapply quiet_is_plain; exact Fa | exact Ci | apply same_ctl_stamp; exact Ct].
   - constructor; [exact Sh | |].
     + rewrite L. simpl. split; [exact Ilg|].
-      destruct Ist as (S1 & _ & _ & _ & _ & _ & S7 & _).
-      destruct x; unfold read_log, circ_read; try (rewrite <- S1; reflexivity). exact S7.
+      destruct Ist as (S1 & _ & _ & S4 & _ & _ & S7 & _).
+      destruct x; unfold read_log, circ_read; try (rewrite <- S1; reflexivity); try exact S7; try exact S4; try reflexivity;
+        rewrite S7; reflexivity.
     + intros _. eapply (st_part_plain s s' [stamped s pid (ARead x (circ_read x (s_circ s)))]); try eassumption;
         [|apply same_ctl_stamp; exact Ct].
       constructor; [|constructor]. split; [reflexivity | split; [discriminate | intros; discriminate]].
